@@ -18,11 +18,33 @@ def write_failure_file(prop_id, sub, seed, tier, failure):
                    "repo_frame": failure.get("repo_frame"), "traceback": failure.get("traceback")}, f, indent=1, allow_nan=True)
     return os.path.relpath(path, VERIF_HOME)
 
+class ReplayTimeout(Exception):
+    pass
+
+REPLAY_LIMIT_S = int(os.environ.get("VERIF_REPLAY_LIMIT_S", "300"))
+
+def with_time_limit(fn, *a):
+    """Saved cases normally run in milliseconds; a replay that does not return within REPLAY_LIMIT_S is reported as a
+    harness error (inconclusive), it must not hang the check. SIGALRM interrupts pure-Python loops in the main thread."""
+    import signal
+    def on_alarm(signum, frame):
+        raise ReplayTimeout(f"replayed case did not return within {REPLAY_LIMIT_S} s")
+    old = signal.signal(signal.SIGALRM, on_alarm)
+    signal.alarm(REPLAY_LIMIT_S)
+    try:
+        return fn(*a)
+    finally:
+        signal.alarm(0)
+        signal.signal(signal.SIGALRM, old)
+
 def do_replay(prop_id, path):
     with open(path) as f:
         rec = json.load(f)
     case = from_jsonable(rec["case"])
-    ok, failure, known = core.replay_case(prop_id, rec["sub"], case)
+    try:
+        ok, failure, known = with_time_limit(core.replay_case, prop_id, rec["sub"], case)
+    except ReplayTimeout as e:
+        return rec, False, {"harness_error": True, "message": str(e), "traceback": ""}, None
     return rec, ok, failure, known
 
 def spawn_jobs(jobs, max_par):
@@ -128,7 +150,7 @@ def main(argv=None):
         if rp:
             try:
                 case = from_jsonable(rp["case"])
-                ok, failure, k = core.replay_case(prop_id, rp["sub"], case)
+                ok, failure, k = with_time_limit(core.replay_case, prop_id, rp["sub"], case)
                 if ok and k == fid:
                     state = "reproduced"
                 elif ok:
